@@ -65,6 +65,62 @@ type Storage struct {
 	Streams   []Stream
 }
 
+// Many describes a run of generated streams: a directory too large to be
+// written out stream by stream in a Spec. Count streams are added to the root
+// storage (or to the nested Storage when InStorage is set). Every name is
+// NameLen UTF-16 code units long - a four-digit base-36 counter followed by
+// 'x' padding - except LongNames of them (evenly spread over the run), which
+// are one unit longer. Stream i has size Sizes[i mod len(Sizes)] and seed i+1.
+type Many struct {
+	Count     int
+	NameLen   int
+	LongNames int
+	Sizes     []int
+	InStorage bool
+	// MetaTarget is what the family aimed the length of the extended-signature
+	// metadata (see ExMetaSize) at; reporting and self-check only.
+	MetaTarget int
+}
+
+const base36 = "0123456789abcdefghijklmnopqrstuvwxyz"
+
+func (m Many) isLong(i int) bool {
+	if m.LongNames <= 0 {
+		return false
+	}
+	stride := m.Count / m.LongNames
+	if stride < 1 {
+		stride = 1
+	}
+	return i%stride == 0 && i/stride < m.LongNames
+}
+
+// Streams expands the run.
+func (m Many) Streams() []Stream {
+	out := make([]Stream, 0, m.Count)
+	for i := 0; i < m.Count; i++ {
+		n := m.NameLen
+		if m.isLong(i) {
+			n++
+		}
+		b := make([]byte, n)
+		for k := range b {
+			b[k] = 'x'
+		}
+		v := i
+		for k := 3; k >= 0; k-- {
+			b[k] = base36[v%36]
+			v /= 36
+		}
+		size := 0
+		if len(m.Sizes) > 0 {
+			size = m.Sizes[i%len(m.Sizes)]
+		}
+		out = append(out, Stream{Name: string(b), Size: size, Seed: i + 1})
+	}
+	return out
+}
+
 // Free-sector / placement patterns.
 const (
 	FreeNone     = "none"
@@ -112,6 +168,59 @@ type Spec struct {
 	// exactly full) with at least MinFatSectors FAT sectors.
 	FatSlack      int
 	MinFatSectors int
+
+	// Many adds a generated run of streams (nil = none).
+	Many *Many `json:",omitempty"`
+}
+
+// AllStreams returns every stream of the file by path ("name" in the root
+// storage, "storage/name" below), the generated run included; the fillers a
+// Mini/FatSlack mode adds are not part of it.
+func (s Spec) AllStreams() map[string]Stream {
+	out := map[string]Stream{}
+	for _, st := range s.Streams {
+		out[st.Name] = st
+	}
+	if s.Storage != nil {
+		for _, st := range s.Storage.Streams {
+			out[s.Storage.Name+"/"+st.Name] = st
+		}
+	}
+	if s.Many != nil {
+		prefix := ""
+		if s.Many.InStorage && s.Storage != nil {
+			prefix = s.Storage.Name + "/"
+		}
+		for _, st := range s.Many.Streams() {
+			out[prefix+st.Name] = st
+		}
+	}
+	return out
+}
+
+// ExMetaSize is the length of the metadata an extended MSI signature
+// (MsiDigitalSignatureEx) pre-hashes for this file: per storage its CLSID and
+// state bits (root: 20 bytes; a nested storage also its name and both
+// timestamps: 36 + name bytes), per stream its name, 32-bit size, state bits
+// and both timestamps (24 + name bytes); names without terminator. Signature
+// streams of the root storage and fillers are not counted (the families that
+// use this have neither).
+func (s Spec) ExMetaSize() int {
+	n := 20
+	units := func(name string) int { return len(encodeName(name)) }
+	for _, st := range s.Streams {
+		n += 24 + 2*units(st.Name)
+	}
+	if s.Storage != nil {
+		n += 36 + 2*units(s.Storage.Name)
+		for _, st := range s.Storage.Streams {
+			n += 24 + 2*units(st.Name)
+		}
+	}
+	if s.Many != nil {
+		n += s.Many.Count*(24+2*s.Many.NameLen) + 2*s.Many.LongNames
+	}
+	return n
 }
 
 func (s Spec) SectorSize() int {
@@ -133,6 +242,16 @@ func (s Spec) ID() string {
 			out += fmt.Sprintf(" %q:%d", st.Name, st.Size)
 		}
 		out += "]"
+	}
+	if m := s.Many; m != nil {
+		where := "root"
+		if m.InStorage {
+			where = "storage"
+		}
+		out += fmt.Sprintf("/many=%dx%du+%dlong,sizes=%v,in=%s", m.Count, m.NameLen, m.LongNames, m.Sizes, where)
+		if m.MetaTarget > 0 {
+			out += fmt.Sprintf(",exmeta=%d", m.MetaTarget)
+		}
 	}
 	out += "/free=" + s.Free + "/mini=" + s.Mini + "/tree=" + s.Tree
 	if s.UnusedFirst {
